@@ -1,6 +1,8 @@
 import SFV.Lemmas.RegistryInv
 import SFV.Lemmas.SourceLoc
 import SFV.Gen.SourceLoc
+import SFV.Lemmas.InnerPath
+import SFV.Gen.InnerPath
 /-! # C21 — the data-location registry answers consistently with its history
 
 `_RemotePathMapper` / `DefaultDataManager` (`streamflow/data/manager.py`) **after fix 5f6015f** (invalidation walks the node
@@ -200,6 +202,39 @@ example :
   decide
 
 end SourceLocation
+
+/-! ### a path of a wrapping location on the wrapped one (`get_inner_path`, used by `register_path` and `transfer_data`) -/
+
+section InnerPath
+open SFV.InnerPath
+
+/-- **`inner_path_uses_longest_mount`**: in the order the code tries the mounts (`SFV.Gen.innerPathOrder`, read from the source),
+whenever no mount precedes a mount nested inside it (`Desc`, what the reverse string order gives; evaluated by the correspondence
+part on every mount table it uses), the mount `get_inner_path` maps a path through is the most specific one: a mount of the table
+the path is relative to, and no other such mount is longer. -/
+theorem inner_path_uses_longest_mount (ms : List Mount) (p : InnerPath.Path) (m : Mount) (hd : Desc (SFV.Gen.innerPathOrder ms))
+    (hm : firstMatch (SFV.Gen.innerPathOrder ms) p = some m) :
+    m ∈ ms ∧ m.key.isPrefixOf p = true ∧ ∀ m' ∈ ms, m'.key.isPrefixOf p = true → m'.key.length ≤ m.key.length := by
+  obtain ⟨h1, h2, h3⟩ := firstMatch_longest _ p m hd hm
+  exact ⟨(mem_sortBy _ m ms).mp h1, h2, fun m' hm' => h3 m' ((mem_sortBy _ m' ms).mpr hm')⟩
+
+/-- nested mounts: `/m → /a`, `/m/b → /e/x` (inside the first), `/mm → /b` -/
+def exMounts : List Mount := [⟨["/", "m"], ["/", "a"]⟩, ⟨["/", "m", "b"], ["/", "e", "x"]⟩, ⟨["/", "mm"], ["/", "b"]⟩]
+
+/-- not vacuous: the hypothesis holds for this table in the code's order, and a path below the inner mount goes through it -/
+example : Desc (SFV.Gen.innerPathOrder exMounts) ∧
+    innerPath (SFV.Gen.innerPathOrder exMounts) ["/", "m", "b", "f", "g"] = some ["/", "e", "x", "f", "g"] ∧
+    innerPath (SFV.Gen.innerPathOrder exMounts) ["/", "m", "c"] = some ["/", "a", "c"] ∧
+    innerPath (SFV.Gen.innerPathOrder exMounts) ["/", "mm", "c"] = some ["/", "b", "c"] ∧
+    innerPath (SFV.Gen.innerPathOrder exMounts) ["/", "q"] = none := by
+  decide
+
+/-- shortest mount first (the seeded change `sorted(keys, key=len)`): the path is mapped through the outer mount -/
+example : ¬ Desc (sortMountsByLen exMounts) ∧
+    innerPath (sortMountsByLen exMounts) ["/", "m", "b", "f", "g"] = some ["/", "a", "b", "f", "g"] := by
+  decide
+
+end InnerPath
 
 /-! ### regression guards: the three histories that failed before fix 5f6015f -/
 
